@@ -502,7 +502,11 @@ def _rand_string(rnd, tables, mode):
             parts.append(chr(rnd.choice(SPECIAL_CPS)))
         elif x < 0.85:
             parts.append(rnd.choice(['ab', 'abc', 'a', 'AB', 'ABCD', 'A', '...', '..', '<em>', '<b', '"', ' "x"', 'é', 'ée',
-                                     'x1', '12', 'aa', 'aaa', '\x7f']))
+                                     'x1', '12', 'aa', 'aaa', '\x7f',
+                                     # not NFC although no character has a combining class or a decomposition:
+                                     # conjoining Hangul jamo, two-part vowel signs
+                                     '\u1112\u1161\u11ab', '\uac00\u11a8', '\u0bc6\u0bbe', '\u09c7\u09d7', '\u1025\u102e',
+                                     'e\u0301', 'A\u030a', '\u0075\u0308\u0304']))
         elif x < 0.93:
             parts.append(chr(rnd.choice([rnd.randrange(128, 0x3000), rnd.randrange(0x3000, 0x11000),
                                          rnd.randrange(0x10000, 0x110000)])))
